@@ -84,8 +84,9 @@ def check(ctx):
     n = core.adopt(ctx, c02, lambda o: o["rule"] == "C02.c" and "::replay:" in o["key"], "C09.c")
     ctx.floor("C09.c", n, 4, "shared replay-closure obligations")
     import c08
-    n = core.adopt(ctx, c08, lambda o: o["rule"] == "C08.e" and "runner:" in o["key"], "C09.c")
-    ctx.floor("C09.c", n, 2, "shared poll-position obligations (C08.e)")
+    n = core.adopt(ctx, c08, lambda o: o["rule"] == "C08.e" and ("runner:" in o["key"] or "poll:" in o["key"]), "C09.c")
+    n += core.adopt(ctx, c01, lambda o: o["rule"] == "C01.b" and ("schedule_removal_reactions" in o["key"] or "schedule_despawn_reactions" in o["key"]), "C09.c")
+    ctx.floor("C09.c", n, 10, "shared poll obligations (C08.e, C01.b): everything detected at a boundary is dispatched at that boundary")
     # ---- C09.d FIFO buffer ----
     n = core.adopt(ctx, c12, lambda o: o["rule"] in ("C12.b", "C12.c"), "C09.d")
     ctx.floor("C09.d", n, 8, "shared C12.b/c obligations")
